@@ -73,6 +73,54 @@ CHECKS.update({
         note='NOT decided: validity/searchability after the rebuild beyond C01/C02 clauses.'),
 })
 
+CHECKS.update({
+    'C01': dict(
+        technique='bounded interprocedural kind inference with mode refinement + L/R tag propagation + must-pass-through / per-element loop rules over MIR',
+        text='Necessary local disciplines of the forest invariant, each decided on every path: no tree id reaches an item sink or vice versa (with `n.item` refined by dominating mode tests; re-tagging needs a mode test), children of every constructed split derive from their own side, both children get the same operations, every fresh id is stored and linked, bucket rewrites are `|= to_insert` / `-= to_delete` under their own id, no stale item lookup is fatal, the shortcut wipes the tree range, metadata publishes the threaded roots vector and the live item scan, every TmpNodesReader is applied, the batch selector partitions its input.',
+        design='DESIGN.md §4 C01',
+        note='NOT decided: that the local disciplines compose into the global invariant for all histories (a proof-family job); remap across batches; split_after changing between builds.'),
+    'C02': dict(
+        technique='loop-exit enumeration, must-pass-through and dataflow-provenance rules on the traversal function\'s MIR',
+        text='Given C01 and C11, exactness under an unlimited budget reduces to the traversal\'s shape: only exits are budget/queue-empty/error, all roots seeded, both children pushed on every path, buckets contribute all ids, sort+dedup, each candidate scored against its live leaf in the caller txn, min-first bounded output with the entry\'s own normalized distance.',
+        design='DESIGN.md §4 C02',
+        note='NOT decided: numerical truth of distances (C11); forest completeness (C01).'),
+    'C03': dict(
+        technique='edge-dominance filter rule, loop-exit enumeration, def-use audit of the budget, formula extraction, per-metric header field read/write sets',
+        text='Every id entering the candidate list is filtered or under the no-filter branch; the budget only gates the loop and is (search_k or count x n_trees) x (oversampling or DEFAULT) with saturating arithmetic; bounded distinct ordered output; by_item and by_vector share the traversal, unknown id => Ok(None); per metric the query path reads no header field that only the build-time preprocess fills.',
+        design='DESIGN.md §4 C03',
+        note='NOT decided: distance truth (C11); monotonicity is a consequence of the checked premises, not checked on values.'),
+    'C04': dict(
+        technique='finite sign-domain abstract interpretation (incl. NaN) of side/pq_distance + L/R tag propagation + pairing rules',
+        text='margin>0 => Right, <0 => Left; pq_distance keeps the routed side positive and the other negative (default methods and every override); margin_no_header impls forward both args to one symmetric kernel; every split construction pairs children with sides; reader pushes left with Side::Left; max-heap; random children <=> zeroed normal.',
+        design='DESIGN.md §4 C04',
+        note='NOT decided: nothing structural; exactly-zero margins exempt by the property.'),
+    'C11': dict(
+        technique='SIMD kernel shape extraction from MIR (load offsets, strides, accumulators, tail) + target-feature guard dominance + formula/interval checks',
+        text='Structural clauses only: lane tiling/pairing/accumulator/horizontal-sum/remainder shape of all 4 x86 kernels, scalar loops, dispatch to kernels of the right kind, every target-feature call guarded, per-metric formula shapes incl. Cosine in [0,1] by interval evaluation and its vanishing-norm guard.',
+        design='DESIGN.md §4 C11',
+        note='NOT decided: rounding error and last-ulp agreement (a statement about values); simple_neon.rs not compiled on this host. One known finding (SSE4.1 intrinsic behind an sse check) is listed in known_findings.json.'),
+    'C12': dict(
+        technique='coefficient extraction (linear form in the popcount), finite-domain evaluation of the bit->value map, state-machine and mask-table extraction from MIR',
+        text='4h/d and 2h/d by construction (constant coefficient x popcount(u xor v) / declared dimension); quantised dot product and cosine form; decoder maps bit1->+1, bit0->-1 LSB-first reloading every 64; packer puts component i at bit i with 1 = positive sign bit, one NE word per 64, padding bits 0 on both entry points; SSE mask/lane/store table; feature guards; truncation.',
+        design='DESIGN.md §4 C12',
+        note='NOT decided: bit-exact round trip for all patterns/dimensions; NEON paths. Known finding shared with C11.'),
+    'C14': dict(
+        technique='loop-exit enumeration with progress guard, conservation (must-pass-through) rules on the batch selector, worklist rules, forward def-use closure of the memory option',
+        text='A non-empty input always yields a non-empty batch (break needs >= K>=1 selected); the examined id is moved as a whole or not at all; the selected half is routed, the remainder re-examined or passed on, over-full results re-queued, worklist pops what it examines; the memory hint reaches only the selector.',
+        design='DESIGN.md §4 C14',
+        note='NOT decided: termination when re-splitting does not shrink (C20); time.'),
+    'C15': dict(
+        technique='edge-dominance capacity gate on every bucket write, dominance of the worklist drain over the metadata put, formula/loop rules for the tree count',
+        text='fit_in_descendant is n <= split_after.unwrap_or(dimensions); every bucket write is under it, or queued for re-splitting, or a shrunk copy, or in a function only called under it; worklist drained before metadata; explicit Some(n) used unchanged, surplus roots removed with their trees deleted, exactly target - roots.len() roots created.',
+        design='DESIGN.md §4 C15',
+        note='NOT decided: arithmetic of the automatic tree count (0 for dimensions = 1 -- observed, value-level, never reported); numeric equality roots.len() == n.'),
+    'C20': dict(
+        technique='type audit of ordered containers, sign-domain totality of side(), bounded-loop (strictly decreasing counter / constant range) rules, guard dominance rules',
+        text='No ordering on bare floats and no unwrap of float partial_cmp; side() total on NaN/0; split retries bounded by a strictly decreasing counter with a random fallback paired with a zero normal; no 0/0 in the imbalance; two-means bounded with NaN/non-positive norm guards; normalisation only under norm > 0; Cosine 0 for vanishing norms; the search path is value-independent in shape.',
+        design='DESIGN.md §4 C20',
+        note='NOT decided: termination of the recursion on all-duplicate sets (probabilistic); bounded time; invariant-guarded unwraps.'),
+})
+
 NOT_YET = {}
 
 
